@@ -182,6 +182,23 @@ func genJsonDec(tier string, seed uint64) {
 		emitJ([]byte("\"" + strings.Repeat("a", n)))
 	}
 	emitJ([]byte(strings.Repeat("1", 70000)))
+	// integer literals longer than any 64-bit number (with and without sign, exponent markers of both cases)
+	for _, n := range []int{19, 20, 21, 63, 64, 65, 66, 100, 308, 309, 310, 400} {
+		for _, d := range []string{"1", "9"} {
+			lit := strings.Repeat(d, n)
+			for _, tx := range []string{lit, "-" + lit, lit + "E-10", lit + "e-10", lit + "E+2", lit + ".5", "[" + lit + "]", "{\"k\":-" + lit + "}"} {
+				emitJ([]byte(tx))
+				emitJ([]byte(tx + " "))
+			}
+		}
+	}
+	// a lone high-surrogate escape followed by text that LOOKS like the hex digits of a low surrogate
+	for _, tail := range []string{"x deadline", "\\n dc00", "12dead", "  DFFF.", "ab\\udead", "\\u0041dc00", "xxde00", "\\ud83ddead"} {
+		for _, hi := range []string{"\\ud83d", "\\uD800", "\\udbff"} {
+			emitJ([]byte("\"" + hi + tail + "\""))
+			emitJ([]byte("[\"a" + hi + tail + "\",1]"))
+		}
+	}
 	// long mantissas (past every integer range) with and without fraction / exponent, both signs
 	for _, n := range []int{18, 19, 20, 21, 25, 40, 400} {
 		m := strings.Repeat("1234567890", n/10+1)[:n]
@@ -231,6 +248,7 @@ func genJsonDec(tier string, seed uint64) {
 			emitJ(mut)
 		}
 	}
+	emitShapes("jsondec", tier)
 	// 5. deep nesting
 	for _, d := range []int{100, 3000} {
 		emitJ([]byte(strings.Repeat("[", d) + "1" + strings.Repeat("]", d)))
@@ -360,6 +378,27 @@ func genJsonEnc(tier string, seed uint64) {
 		l, i := opt()
 		emit("jsonenc %s %s %s", l, i, strings.Join(toks, ","))
 	}
+	// strings longer than 64 KiB with a multi-byte character lying across every offset around k * 65536; keys and values with
+	// bytes that are not valid UTF-8, under every line / indent setting
+	for _, k := range []int{1, 2} {
+		for off := -3; off <= 1; off++ {
+			n := k*65536 + off
+			for _, ch := range []string{"c3a9", "e697a5", "f09f9880"} {
+				body := strings.Repeat("61", n) + ch + "62"
+				emit("jsonenc nil - s%s", body)
+				emit("jsonenc 0a 09 [2,s%s,i1,]", body)
+				emit("jsonenc nil - {1,s%s,0,}", body)
+			}
+		}
+	}
+	for _, o := range [][2]string{{"nil", "-"}, {"0a", "09"}, {"0a", "-"}, {"-", "2020"}} {
+		for _, k := range []string{"ff", "61ff62", "c3", "e697", "80", "6bc328", "f09f98", "eda080", "c0af", strings.Repeat("6b", 59) + "ff", strings.Repeat("6b", 60) + "ff", strings.Repeat("6b", 70) + "c3"} {
+			emit("jsonenc %s %s {1,s%s,i1,}", o[0], o[1], k)
+			emit("jsonenc %s %s {2,s61,s%s,s%s,[1,s%s,],}", o[0], o[1], k, k, k)
+			emit("jsonenc %s %s [2,s%s,{-1,s%s,0,},]", o[0], o[1], k, k)
+		}
+	}
+	emitShapes("jsonenc", tier)
 	// 6. deep nesting
 	for _, d := range []int{100, 2000} {
 		emit("jsonenc 0a 20 %s0%s", strings.Repeat("[1,", d/8), strings.Repeat(",]", d/8))
